@@ -177,12 +177,16 @@ def concrete_doc(d):
 
 
 def run(ctx):
-    st = vlib.tlc("SemTokens", ctx.pick("SemTokens_q", "SemTokens_t"), workers=ctx.pick(4, 8), timeout=ctx.pick(600, 2400))
-    ctx.add_tlc(st)
-    if st.violated:
-        raise vlib.ToolError("SemTokens: %s is violated: the assume/guarantee split of the builder does not hold as "
-                             "stated\n%s" % (st.violated, st.trace_text[:2500]))
-    ctx.note("semtokens_push_sequences", st.distinct)
+    nseq = 0
+    # two grids: wide lines, and three short lines (pieces on a middle line)
+    for cfg in ctx.pick(("SemTokens_q", "SemTokens_q2"), ("SemTokens_t", "SemTokens_t2")):
+        st = vlib.tlc("SemTokens", cfg, workers=ctx.pick(4, 8), timeout=ctx.pick(600, 2400))
+        ctx.add_tlc(st)
+        if st.violated:
+            raise vlib.ToolError("SemTokens/%s: %s is violated: the assume/guarantee split of the builder does not hold "
+                                 "as stated\n%s" % (cfg, st.violated, st.trace_text[:2500]))
+        nseq += st.distinct
+    ctx.note("semtokens_push_sequences", nseq)
     pin = vlib.tlc("SemTokens", "SemTokens_pinned", workers=2, timeout=600)
     ctx.add_tlc(pin)
     if pin.violated != "OutputInDocument":
@@ -192,13 +196,10 @@ def run(ctx):
     alld = [d for t, d in dres.json if t == "DOC"]
     alld.sort(key=lambda d: json.dumps(d, sort_keys=True))
     rnd = random.Random(ctx.seed)
-    if ctx.quick:
-        singles = [d for d in alld if len(d["stmts"]) == 1]
-        pairs = [d for d in alld if len(d["stmts"]) == 2]
-        # every template once per (terminator, final newline) variant + a seeded sample of pairs
-        docs = singles + rnd.sample(pairs, 40)
-    else:
-        docs = alld
+    singles = [d for d in alld if len(d["stmts"]) == 1]
+    pairs = [d for d in alld if len(d["stmts"]) == 2]
+    # every template once per (terminator, final newline) variant + a seeded sample of the pairs
+    docs = singles + rnd.sample(pairs, ctx.pick(40, 100))
     vlib.build(["vh-ls"])
     uri = L.DOC_URI
     runs, meta = [], {}
